@@ -389,8 +389,9 @@ def run(tier):
 
     # 3. exhaustive short paths through ONE live object
     depth = 3 if thorough else 2
-    rp = run_tlc("MC_SMList", "SMList_paths_d%d" % depth if depth != 2 else "SMList_paths")
-    paths = rp.json
+    rp = run_tlc("MC_SMList", "SMList_paths_d%d" % depth if depth != 2 else "SMList_paths",
+                 stream=True, timeout=3600)
+    paths = rp.iter_json()
     n_path = 0
     pclasses = elems.MAIN8 if thorough else ["SE3", "UnitQuaternion", "Twist3", "SO2"]
     for h in paths:
